@@ -110,7 +110,7 @@ def build_trace(cfg, log, model, kind='managed'):
     for si, st in enumerate(acts):
         a = [conv(x) for x in st['act']]
         step = {'act': a, 'env': [[conv(x) for x in e] for e in st['env']]}
-        step['thread'] = a[1] if a[0] in ('get', 'poll', 'cancel', 'drop', 'take', 'step', 'uget', 'uadd') else 'C'
+        step['thread'] = a[1] if a[0] in ('get', 'poll', 'cancel', 'drop', 'take', 'step', 'uget', 'uadd', 'tclose') else 'C'
         if cfg.get('thread_mode') and (si < nprefix or st.get('probe')): step['atomic'] = True
         if any(e[0] == 'timer' and e[2] == 'expired' for e in st['env']):
             step['advance_ns'] = STEP_NS; done += 1
@@ -120,6 +120,7 @@ def build_trace(cfg, log, model, kind='managed'):
             if isinstance(v, (list, tuple)):
                 if v[1] is None: step['variant'] = [v[0], None]
                 elif v[1] == 'zero': step['variant'] = [v[0], 0]
+                elif v[1] == 'sub': step['variant'] = [v[0], int(model.get(f'ns_{a[1]}_{callno[a[1]]}', 1))]     # the solver's value for this path
                 else:
                     k = expiry.get((a[1], callno[a[1]], 'wait'))
                     step['variant'] = [v[0], BIG_NS if k is None else max(1, (k - done)) * STEP_NS]
@@ -151,8 +152,8 @@ def build_trace(cfg, log, model, kind='managed'):
         ct = cfg.get('config_timeout')
         ks = [k for (t, c, kk), k in expiry.items() if kk == 'wait']
         return {'kind': kind, 'pool': {'ctor': cfg.get('ctor', 'new'), 'max_size': int(model.get('max_size', 1)), 'initial': cfg.get('initial', 0),
-                                       'config_timeout': None if ct is None else (0 if ct == 'zero' else (STEP_NS if ks else BIG_NS)), 'runtime': bool(cfg.get('runtime', True))},
-                'actions': steps, 'cfg': cfg, 'threads': bool(cfg.get('thread_mode'))}
+                                       'config_timeout': None if ct is None else (0 if ct == 'zero' else (int(model.get('ns_cfg', 1)) if ct == 'sub' else (STEP_NS if ks else BIG_NS))), 'runtime': bool(cfg.get('runtime', True))},
+                'actions': steps, 'cfg': cfg, 'threads': bool(cfg.get('thread_mode')), 'model_ns': {k: int(v) for k, v in model.items() if k.startswith('ns_')}}
     return {'kind': kind, 'pool': {'max_size': int(model.get('max_size', 1)), 'lifo': bool(lifo), 'timeouts': pt,
                                    'runtime': bool(cfg.get('runtime', True)), 'hooks': [list(h) for h in cfg.get('hooks', [])]},
             'actions': steps, 'cfg': cfg, 'threads': bool(cfg.get('thread_mode'))}
@@ -199,9 +200,10 @@ def run_engine(prog, trace):
     cfg['lifo'] = trace['pool'].get('lifo', False); cfg['max_size_concrete'] = trace['pool']['max_size']
     if um:
         cfg['get_variants'] = [tuple(v) if isinstance(v, list) else v for v in cfg.get('get_variants', ['get'])]
-    tasks = sorted({s['act'][1] for s in trace['actions'] if s['act'][0] in ('get', 'poll', 'cancel', 'drop', 'take', 'uget', 'uadd', 'step') and s['act'][1] != 'C'})
+    tasks = sorted({s['act'][1] for s in trace['actions'] if s['act'][0] in ('get', 'poll', 'cancel', 'drop', 'take', 'uget', 'uadd', 'step', 'tclose') and s['act'][1] != 'C'})
     cfg['task_names'] = tasks or ['T1']
     cfg['probe'] = False
+    cfg['sub_values'] = dict(trace.get('model_ns') or {})
     nprefix = len(cfg.get('prefix') or ()); cfg['prefix'] = ()
     B = w_unmanaged.UnmanagedBSE(prog, cfg) if um else w_managed.ManagedBSE(prog, cfg)
     init = B.init_states()
@@ -231,7 +233,7 @@ def run_engine(prog, trace):
             if res[:2] in (['ok', 'object'], ['ok', 'removed']): res = res[:2] + [last['oid']]
             elif res[0] == 'err' and last.get('back'): res = ['err', res[1], last['back']]
             elif a[0] == 'status' and res[0] == 'ok': S = res[1]; res = ['ok', [S.f[i].v for i in range(4)]]
-            elif a[0] in ('drop', 'close') and res[0] == 'ok': res = ['ok']
+            elif a[0] in ('drop', 'close', 'tclose') and res[0] == 'ok': res = ['ok']
         elif res[:2] == ['ok', 'object']:
             met = w_managed._find_metrics(s2.heap[last['oroot']]); mt = B.W.env.metrics_tuple(met)
             res = ['ok', 'object', last['oid'], norm_metrics_engine(mt)]
@@ -490,6 +492,13 @@ def confirm(pid, v, blobs=None):
         prog = program(blobs, v.get('crates', ['deadpool']))
         engine, vios = run_engine(prog, trace)
         diff = compare(native, engine)
+        if diff is not None and any(e[0] == 'cblocked' for s_ in trace['actions'] for e in s_['env']) and \
+                any(o['res'][0] == 'at_point' and 'blocked' in str(o['res'][1]) for o in engine if o.get('res')):
+            # a thread is parked inside a critical section and another one blocks on that lock: once released, the blocked
+            # thread resumes on its own and races the lock holder, so the step-by-step schedule cannot be forced natively
+            json.dump({'kind': 'lock-contention-engine-only', 'violation': {'property': pid, 'what': v['what']}, 'trace': v['trace'], 'cfg': v['cfg'], 'model': v.get('model')}, open(path, 'w'), indent=1, default=str)
+            return {'status': 'engine_only', 'path': path, 'known': None,
+                    'detail': 'a thread blocks on a lock held by a thread parked in user code inside the critical section: the schedule cannot be forced natively'}
         if diff is not None: return {'status': 'not_reproduced', 'detail': diff, 'path': path}
         same = [x for x in vios if x['property'] == pid]
         if not same and not v.get('probe_log'):
